@@ -1,26 +1,48 @@
-"""C02 -- every reported line is the line on which the flagged construct begins (bounded).
+"""C02 -- every reported line is the line on which the flagged construct begins (mixed).
 
-Two native checks: `c02` (get_line_number exhaustive on short texts; analyze_for_* line sets on programs x layouts)
-and `c02-loc` (the detector reports the location of the construct named in DESIGN §8, not of a sub-node).
-For the detectors under a Verus contract the reported location is also part of the proved postcondition
-(loc_P in units det_expr / det_decl / det_gate / det_vuln, checked by C05-C07, C09)."""
+Verus: unit `lines` (get_line_number == 1 + number of line feeds preceding the offset, over a trusted model of the regex
+crate) and unit `dispatch` (analyze_for_*: the set of lines returned is exactly { line_of(start of l) | l reported by the
+pattern's detector }, pt's Loc::start under contract). Which node's location a detector reports is part of the proved
+postconditions of the detector units (loc_P, checked by C05-C07, C09).
+Bounded: native `c02` (get_line_number exhaustive on short texts; analyze_for_* line sets on programs x layouts) and
+`c02-loc` (the detector reports the location of the construct named in DESIGN §8, not of a sub-node)."""
 from .. import driver as D
 from . import bounded
+
+UNITS = [("lines", None), ("dispatch", ["start", "end", "analyze_for_optimization", "analyze_for_vulnerability", "analyze_for_qa"])]
+TRUST = [
+    "regex crate (unit lines): Regex::new / captures_iter / Captures::iter / Match::start are external_body models; for the pattern `\\n` the captures are exactly the line feeds of the text, one group each, in increasing byte offset",
+    "solang_parser::parse is a partial function of (text, file number) (uninterpreted parse_ok / parse_tree)",
+    "precondition locs_in_text: every location a detector reports is a Loc::File whose first byte is not a line feed (constructs begin with a token); texts have fewer than 2^31-16 line feeds (i32 line numbers)",
+    "in unit dispatch the detectors are external_body stubs `r@ == spec_<fn>(source_unit)`; get_line_number carries the contract proved in unit lines",
+    "by-value iteration over HashSet<Loc> visits each element once (trusted iterator model); vstd's BTreeSet specs",
+]
+BOUNDED_PART = ["which construct's location each detector reports, for the detectors that are not under a Verus contract (native c02-loc)",
+                "lf_positions is the text model (byte offsets of the LF bytes): that the regex engine really yields them is only exercised by the native c02 run on generated texts"]
+
+
+def key_to_functions(key):
+    if key.startswith("c02:analyze_for"):
+        return ["analyze_for_optimization", "analyze_for_vulnerability", "analyze_for_qa", "start"]
+    if key.startswith("c02-loc") or key.startswith("c02loc"):
+        return []
+    return ["get_line_number"]
 
 
 def run(tier, seed):
     vd = D.Verdict("C02", tier, seed)
+    covs, failed = bounded.run_units(vd, UNITS)
     try:
         binary, _ = D.build_native()
     except D.BuildError as e:
         vd.add_undecided(str(e)[:800])
         return vd.finish({"level": "exploration", "coverage": {"evaluations": 1, "distinct_nontrivial": 2, "rule": "native harness did not build", "samples": ["-"]}})
     nat = D.run_native(binary, "c02", tier, seed)
-    bounded.add_native_violations(vd, nat, "get_line_number / analyze_for_* line contract")
     nloc = D.run_native(binary, "c02-loc", tier, seed)
-    bounded.add_native_violations(vd, nloc, "reported location is the construct's own location")
-    ev = bounded.evidence_from_native(nat, ["which node's location a detector reports is additionally part of the Verus contracts of C05-C07/C09 (loc_P)"])
+    both = {"violations": list(nat.get("violations", [])) + list(nloc.get("violations", []))}
+    D.combine(vd, failed, both, key_to_functions=key_to_functions)
+    ev = bounded.evidence_from_native(nat, [])
     ev["coverage"]["evaluations"] += int(nloc.get("evaluations", 0))
     ev["coverage"]["distinct_nontrivial"] += int(nloc.get("distinct_nontrivial", 0))
     ev["coverage"]["wrong_node_location_check"] = {k: nloc.get(k) for k in ("evaluations", "distinct_nontrivial", "rule", "bound", "wall_s", "cmd")}
-    return vd.finish(ev)
+    return vd.finish(bounded.mixed_evidence(ev, covs, BOUNDED_PART, TRUST, tier, UNITS, vd))
